@@ -740,3 +740,475 @@ theorem stuck_run (copy : Bool) (st : THn) (i : Nat) (hl : st.lpc = .finished)
     exact ih (stepN copy st a) h1 h2 h3
 
 end Ptk.C13
+
+/-! ### termination bound (notify loops over a copy) -/
+
+namespace Ptk.C13
+open Ptk.Py
+
+def crankN (c : Cons) : Nat :=
+  match c.cpc with
+  | .waiting => if c.ev then 3 else 0
+  | .reading => 2
+  | .yielding => if c.ev then 4 else 1
+  | _ => 0
+
+def csumL (cons : Nat → Cons) (l : List Nat) : Nat := (l.map (fun i => crankN (cons i))).sum
+
+theorem csumL_update_notin (cons : Nat → Cons) (i : Nat) (c : Cons) (l : List Nat) (h : i ∉ l) :
+    csumL (fun j => if j = i then c else cons j) l = csumL cons l := by
+  induction l with
+  | nil => rfl
+  | cons x l ih =>
+    simp only [List.mem_cons, not_or] at h
+    have hx : ¬ x = i := fun e => h.1 e.symm
+    simp only [csumL, List.map_cons, List.sum_cons, hx, if_false] at ih ⊢
+    rw [ih h.2]
+
+theorem csumL_update_in (cons : Nat → Cons) (i : Nat) (c : Cons) (l : List Nat) (hn : l.Nodup)
+    (h : i ∈ l) :
+    csumL (fun j => if j = i then c else cons j) l + crankN (cons i) = csumL cons l + crankN c := by
+  induction l with
+  | nil => simp at h
+  | cons x l ih =>
+    have hn' := List.nodup_cons.mp hn
+    by_cases hx : x = i
+    · subst hx
+      have := csumL_update_notin cons x c l hn'.1
+      simp only [csumL, List.map_cons, List.sum_cons, if_true] at this ⊢
+      rw [this]; omega
+    · have hi : i ∈ l := by
+        simp only [List.mem_cons] at h
+        rcases h with h | h
+        · exact absurd h.symm hx
+        · exact h
+      have := ih hn'.2 hi
+      simp only [csumL, List.map_cons, List.sum_cons, hx, if_false] at this ⊢
+      omega
+
+theorem csumL_erase (cons : Nat → Cons) (i : Nat) (l : List Nat) (h : i ∈ l) :
+    csumL cons (l.erase i) + crankN (cons i) = csumL cons l := by
+  induction l with
+  | nil => simp at h
+  | cons x l ih =>
+    by_cases hx : x = i
+    · subst hx
+      simp [csumL, Nat.add_comm]
+    · have hi : i ∈ l := by
+        simp only [List.mem_cons] at h
+        rcases h with h | h
+        · exact absurd h.symm hx
+        · exact h
+      have := ih hi
+      rw [List.erase_cons_tail (by simpa using hx)]
+      simp only [csumL, List.map_cons, List.sum_cons] at this ⊢
+      omega
+
+end Ptk.C13
+
+namespace Ptk.C13
+open Ptk.Py
+
+/-- the registration list has no duplicates and holds exactly the `load()` calls in progress -/
+structure RegN (st : THn) : Prop where
+  nodup : st.events.Nodup
+  reg : ∀ i, i ∈ st.events ↔ (st.cons i).active
+
+theorem regN_init (old pre : List Text) : RegN (THn.init old pre) := by
+  constructor <;> simp [THn.init, Cons.active]
+
+theorem regN_setCons (st : THn) (h : RegN st) (i : Nat) (c : Cons)
+    (hact : c.active ↔ (st.cons i).active) : RegN (st.setCons i c) := by
+  constructor
+  · exact h.nodup
+  · intro j
+    show j ∈ st.events ↔ (if j = i then c else st.cons j).active
+    by_cases hj : j = i
+    · simp only [hj, if_true]; rw [hact]; exact h.reg i
+    · simp only [hj, if_false]; exact h.reg j
+
+theorem regN_setEv (st : THn) (h : RegN st) (e : Nat) : RegN (st.setEv e) :=
+  regN_setCons st h e _ (by simp [Cons.active])
+
+theorem regN_fields (st st' : THn) (h : RegN st) (hc : st'.cons = st.cons)
+    (he : st'.events = st.events) : RegN st' := by
+  constructor
+  · rw [he]; exact h.nodup
+  · intro i; rw [he, hc]; exact h.reg i
+
+theorem regN_loopStart (copy : Bool) (st : THn) (h : RegN st) (a b : NPc) :
+    RegN (loopStart copy st a b) := by
+  unfold loopStart
+  split
+  · exact regN_fields st _ h rfl rfl
+  · rename_i e r _
+    split
+    · exact regN_fields (st.setEv e) _ (regN_setEv st h e) rfl rfl
+    · exact regN_fields (st.setEv e) _ (regN_setEv st h e) rfl rfl
+
+theorem regN_loopNext (copy : Bool) (st : THn) (h : RegN st) (b : NPc) :
+    RegN (loopNext copy st b) := by
+  unfold loopNext
+  split
+  · split
+    · exact regN_fields st _ h rfl rfl
+    · rename_i e r _
+      exact regN_fields (st.setEv e) _ (regN_setEv st h e) rfl rfl
+  · split
+    · exact regN_fields st _ h rfl rfl
+    · rename_i e _
+      exact regN_fields (st.setEv e) _ (regN_setEv st h e) rfl rfl
+
+theorem regN_step (copy : Bool) (st : THn) (h : RegN st) (a : StepN) : RegN (stepN copy st a) := by
+  cases a with
+  | cstart i =>
+    simp only [stepN]
+    split
+    · rename_i hc
+      have hni : i ∉ st.events := fun hm => by
+        have := (h.reg i).mp hm
+        simp [Cons.active, hc] at this
+      constructor
+      · show (st.events ++ [i]).Nodup
+        rw [List.nodup_append]
+        refine ⟨h.nodup, by simp, ?_⟩
+        intro a ha b hb
+        simp only [List.mem_singleton] at hb
+        subst hb
+        exact fun e => hni (e ▸ ha)
+      · intro j
+        show j ∈ st.events ++ [i] ↔ (if j = i then ({ cpc := .waiting, ev := true } : Cons) else st.cons j).active
+        by_cases hj : j = i
+        · simp [hj, Cons.active]
+        · simp only [hj, if_false, List.mem_append, List.mem_singleton, or_false]
+          exact h.reg j
+    · exact h
+  | cwait i =>
+    simp only [stepN]
+    split
+    · rename_i hc
+      exact regN_setCons st h i _ (by simp [Cons.active, hc.1])
+    · exact h
+  | cread i =>
+    simp only [stepN]
+    split
+    · rename_i hc
+      exact regN_setCons st h i _ (by simp [Cons.active, hc])
+    · exact h
+  | cyield i =>
+    simp only [stepN]
+    split
+    · rename_i hc
+      cases hs : (st.cons i).sawDone with
+      | false =>
+        simp only [Bool.false_eq_true, if_false]
+        exact regN_setCons st h i _ (by simp [Cons.active, hc])
+      | true =>
+        simp only [if_true]
+        constructor
+        · exact h.nodup.erase i
+        · intro j
+          show j ∈ st.events.erase i ↔ (if j = i then _ else st.cons j).active
+          by_cases hj : j = i
+          · subst hj
+            simp only [if_true]
+            constructor
+            · intro hm; exact absurd hm (List.Nodup.not_mem_erase h.nodup)
+            · intro ha; simp [Cons.active] at ha
+          · simp only [hj, if_false]
+            rw [List.mem_erase_of_ne hj]
+            exact h.reg j
+    · exact h
+  | lreset => simp only [stepN]; split <;> first | exact h | exact regN_fields st _ h rfl rfl
+  | lsnap => simp only [stepN]; split <;> first | exact h | exact regN_fields st _ h rfl rfl
+  | lappend =>
+    simp only [stepN]
+    split
+    · split
+      · exact regN_fields st _ h rfl rfl
+      · exact h
+    · exact h
+  | ldone => simp only [stepN]; split <;> first | exact h | exact regN_fields st _ h rfl rfl
+  | lnotify => simp only [stepN]; split <;> first | exact h | exact regN_loopStart copy st h _ _
+  | lfinal => simp only [stepN]; split <;> first | exact h | exact regN_loopStart copy st h _ _
+  | lset =>
+    simp only [stepN]
+    split
+    · exact regN_loopNext copy st h _
+    · split
+      · exact regN_loopNext copy st h _
+      · exact h
+
+end Ptk.C13
+
+namespace Ptk.C13
+open Ptk.Py
+
+/-- loader steps still to come, given `E` registered `load()` calls -/
+def lrankE (E : Nat) (st : THn) : Nat :=
+  match st.lpc with
+  | .notStarted => 0
+  | .started => (st.storage.length + 1) * (E + 2) + 2
+  | .called => (st.storage.length + 1) * (E + 2) + 1
+  | .iter => (st.remaining.length + 1) * (E + 2)
+  | .notify => (st.remaining.length + 1) * (E + 2) + E + 1
+  | .looping => (st.remaining.length + 1) * (E + 2) + st.ncopy.length + 1
+  | .notifyFinal => E + 1
+  | .loopingFinal => st.ncopy.length + 1
+  | .finished => 0
+
+def budgetN (st : THn) : Nat := 4 * lrankE st.events.length st + csumL st.cons st.events
+
+theorem lrankE_mono (E' E : Nat) (h : E' ≤ E) (st : THn) : lrankE E' st ≤ lrankE E st := by
+  unfold lrankE
+  have hm : ∀ k, k * (E' + 2) ≤ k * (E + 2) := fun k => Nat.mul_le_mul_left k (by omega)
+  split <;> first | omega | (have := hm (st.storage.length + 1); omega) |
+    (have := hm (st.remaining.length + 1); omega)
+
+def withEv (c : Cons) : Cons := { c with ev := true }
+
+theorem setEv_cons (st : THn) (e : Nat) :
+    (st.setEv e).cons = fun j => if j = e then withEv (st.cons e) else st.cons j := rfl
+
+theorem crankN_withEv (c : Cons) : crankN (withEv c) ≤ crankN c + 3 := by
+  unfold crankN withEv
+  cases c.cpc <;> cases c.ev <;> simp
+
+theorem csumL_setEv (st : THn) (h : RegN st) (e : Nat) :
+    csumL (st.setEv e).cons st.events ≤ csumL st.cons st.events + 3 := by
+  rw [setEv_cons]
+  by_cases he : e ∈ st.events
+  · have := csumL_update_in st.cons e (withEv (st.cons e)) st.events h.nodup he
+    have h2 := crankN_withEv (st.cons e)
+    omega
+  · have := csumL_update_notin st.cons e (withEv (st.cons e)) st.events he
+    omega
+
+/-- a consumer step that keeps the registration and lowers the consumer's own rank -/
+theorem budgetN_setCons (st : THn) (h : RegN st) (i : Nat) (c : Cons) (ha : (st.cons i).active)
+    (hlt : crankN c < crankN (st.cons i)) :
+    budgetN (st.setCons i c) < budgetN st := by
+  have hi := (h.reg i).mpr ha
+  have := csumL_update_in st.cons i c st.events h.nodup hi
+  have hl : lrankE st.events.length (st.setCons i c) = lrankE st.events.length st := rfl
+  show 4 * lrankE st.events.length (st.setCons i c)
+      + csumL (fun j => if j = i then c else st.cons j) st.events < _
+  unfold budgetN
+  rw [hl]
+  omega
+
+end Ptk.C13
+
+namespace Ptk.C13
+open Ptk.Py
+
+theorem budgetN_loader (st st' : THn) (hE : st'.events = st.events)
+    (hcs : csumL st'.cons st.events ≤ csumL st.cons st.events + 3)
+    (hr : lrankE st.events.length st' < lrankE st.events.length st) :
+    budgetN st' < budgetN st := by
+  unfold budgetN
+  rw [hE]
+  omega
+
+theorem budgetN_loopStart (st : THn) (h : RegN st) (inLoop after : NPc)
+    (hcase : (st.lpc = .notify ∧ inLoop = .looping ∧ after = .iter) ∨
+             (st.lpc = .notifyFinal ∧ inLoop = .loopingFinal ∧ after = .finished)) :
+    budgetN (loopStart true st inLoop after) < budgetN st := by
+  unfold loopStart
+  split
+  · rename_i hev
+    apply budgetN_loader st
+    · rfl
+    · simp
+    · rcases hcase with ⟨hl, _, ha⟩ | ⟨hl, _, ha⟩ <;> simp [lrankE, hl, ha, hev]
+  · rename_i e r hev
+    simp only [if_true]
+    apply budgetN_loader st
+    · rfl
+    · exact csumL_setEv st h e
+    · rcases hcase with ⟨hl, hi, _⟩ | ⟨hl, hi, _⟩
+      · simp only [lrankE, hl, hi, hev, List.length_cons]
+        show (st.remaining.length + 1) * (r.length + 1 + 2) + r.length + 1 < _
+        omega
+      · simp only [lrankE, hl, hi, hev, List.length_cons]
+        show r.length + 1 < _
+        omega
+
+theorem budgetN_loopNext (st : THn) (h : RegN st) (after : NPc)
+    (hcase : (st.lpc = .looping ∧ after = .iter) ∨ (st.lpc = .loopingFinal ∧ after = .finished)) :
+    budgetN (loopNext true st after) < budgetN st := by
+  unfold loopNext
+  simp only [if_true]
+  split
+  · rename_i hnc
+    apply budgetN_loader st
+    · rfl
+    · simp
+    · rcases hcase with ⟨hl, ha⟩ | ⟨hl, ha⟩ <;> simp [lrankE, hl, ha, hnc]
+  · rename_i e r hnc
+    apply budgetN_loader st
+    · rfl
+    · exact csumL_setEv st h e
+    · rcases hcase with ⟨hl, _⟩ | ⟨hl, _⟩
+      · have hl' : (st.setEv e).lpc = .looping := hl
+        simp only [lrankE, hl, hl', hnc, List.length_cons]
+        show (st.remaining.length + 1) * (st.events.length + 2) + r.length + 1 < _
+        omega
+      · have hl' : (st.setEv e).lpc = .loopingFinal := hl
+        simp only [lrankE, hl, hl', hnc, List.length_cons]
+        show r.length + 1 < _
+        omega
+
+/-- every loader / consumer step that changes the state uses up budget (notify loops over a copy) -/
+theorem budgetN_decreases (st : THn) (h : RegN st) (a : StepN) (ha : isLoadStepN a)
+    (hne : stepN true st a ≠ st) : budgetN (stepN true st a) < budgetN st := by
+  cases a with
+  | cstart i => simp [isLoadStepN] at ha
+  | cwait i =>
+    simp only [stepN] at hne ⊢
+    split at hne
+    · rename_i hc
+      simp only [hc, and_self, if_true]
+      apply budgetN_setCons st h i _ (Or.inl hc.1)
+      simp [crankN, hc.1, hc.2]
+    · exact absurd rfl hne
+  | cread i =>
+    simp only [stepN] at hne ⊢
+    split at hne
+    · rename_i hc
+      simp only [hc, if_true]
+      apply budgetN_setCons st h i _ (Or.inr (Or.inl hc))
+      simp [crankN, hc]
+    · exact absurd rfl hne
+  | cyield i =>
+    simp only [stepN] at hne ⊢
+    split at hne
+    · rename_i hc
+      simp only [hc, if_true]
+      cases hs : (st.cons i).sawDone with
+      | false =>
+        simp only [Bool.false_eq_true, if_false]
+        apply budgetN_setCons st h i _ (Or.inr (Or.inr hc))
+        cases hev : (st.cons i).ev <;> simp [crankN, hc, hev]
+      | true =>
+        simp only [if_true]
+        -- the call finishes and unregisters
+        have hi := (h.reg i).mpr (Or.inr (Or.inr hc))
+        have hni : i ∉ st.events.erase i := List.Nodup.not_mem_erase h.nodup
+        have h1 := fun c => csumL_update_notin st.cons i c (st.events.erase i) hni
+        have h2 := csumL_erase st.cons i st.events hi
+        have h3 : 1 ≤ crankN (st.cons i) := by
+          cases hev : (st.cons i).ev <;> simp [crankN, hc, hev]
+        have hlen : (st.events.erase i).length ≤ st.events.length := by
+          rw [List.length_erase_of_mem hi]; omega
+        have h4 := lrankE_mono _ _ hlen st
+        unfold budgetN
+        show 4 * lrankE (st.events.erase i).length st
+          + csumL (fun j => if j = i then _ else st.cons j) (st.events.erase i) < _
+        rw [h1]
+        omega
+    · exact absurd rfl hne
+  | lreset =>
+    simp only [stepN] at hne ⊢
+    split at hne
+    · rename_i hl
+      simp only [hl, if_true]
+      apply budgetN_loader st
+      · rfl
+      · simp
+      · simp [lrankE, hl]
+    · exact absurd rfl hne
+  | lsnap =>
+    simp only [stepN] at hne ⊢
+    split at hne
+    · rename_i hl
+      simp only [hl, if_true]
+      apply budgetN_loader st
+      · rfl
+      · simp
+      · simp [lrankE, hl]
+    · exact absurd rfl hne
+  | lappend =>
+    simp only [stepN] at hne ⊢
+    split at hne
+    · rename_i hl
+      split at hne
+      · rename_i x r hr
+        simp only [hl, if_true]
+        apply budgetN_loader st
+        · rfl
+        · simp
+        · simp only [lrankE, hl, hr, List.length_cons]
+          have : (r.length + 1 + 1) * (st.events.length + 2)
+              = (r.length + 1) * (st.events.length + 2) + (st.events.length + 2) := Nat.succ_mul _ _
+          omega
+      · exact absurd rfl hne
+    · exact absurd rfl hne
+  | ldone =>
+    simp only [stepN] at hne ⊢
+    split at hne
+    · rename_i hl
+      simp only [hl, and_self, if_true]
+      apply budgetN_loader st
+      · rfl
+      · simp
+      · simp [lrankE, hl.1, hl.2]
+    · exact absurd rfl hne
+  | lnotify =>
+    simp only [stepN] at hne ⊢
+    split at hne
+    · rename_i hl
+      simp only [hl, if_true]
+      exact budgetN_loopStart st h _ _ (Or.inl ⟨hl, rfl, rfl⟩)
+    · exact absurd rfl hne
+  | lfinal =>
+    simp only [stepN] at hne ⊢
+    split at hne
+    · rename_i hl
+      simp only [hl, if_true]
+      exact budgetN_loopStart st h _ _ (Or.inr ⟨hl, rfl, rfl⟩)
+    · exact absurd rfl hne
+  | lset =>
+    simp only [stepN] at hne ⊢
+    split at hne
+    · rename_i hl
+      simp only [hl, if_true]
+      exact budgetN_loopNext st h _ (Or.inl ⟨hl, rfl⟩)
+    · split at hne
+      · rename_i hl1 hl
+        simp only [hl, if_true]
+        have : ¬ (NPc.loopingFinal = NPc.looping) := by decide
+        simp only [this, if_false]
+        exact budgetN_loopNext st h _ (Or.inr ⟨hl, rfl⟩)
+      · exact absurd rfl hne
+
+end Ptk.C13
+
+namespace Ptk.C13
+open Ptk.Py
+
+/-- a schedule in which every step changes the state (notify loops over a copy) -/
+def effectiveN : THn → List StepN → Prop
+  | _, [] => True
+  | st, a :: r => stepN true st a ≠ st ∧ effectiveN (stepN true st a) r
+
+theorem regN_run (copy : Bool) (st : THn) (h : RegN st) (sched : List StepN) :
+    RegN (runN copy st sched) := by
+  induction sched generalizing st with
+  | nil => exact h
+  | cons a r ih =>
+    simp only [runN, List.foldl_cons]
+    exact ih (stepN copy st a) (regN_step copy st h a)
+
+theorem sched_boundedN (st : THn) (h : RegN st) (sched : List StepN)
+    (hl : ∀ a ∈ sched, isLoadStepN a) (he : effectiveN st sched) :
+    sched.length + budgetN (runN true st sched) ≤ budgetN st := by
+  induction sched generalizing st with
+  | nil => simp [runN]
+  | cons a r ih =>
+    have h1 := budgetN_decreases st h a (hl a (by simp)) he.1
+    have h2 := ih (stepN true st a) (regN_step true st h a) (fun b hb => hl b (by simp [hb])) he.2
+    simp only [runN, List.foldl_cons, List.length_cons] at h2 ⊢
+    omega
+
+end Ptk.C13
